@@ -241,14 +241,17 @@ pub mod compaction {
 		// one Options for the whole process: every `Options::new()` starts a clock thread
 		static OPTS: std::sync::OnceLock<Arc<Options>> = std::sync::OnceLock::new();
 		let opts = Arc::clone(OPTS.get_or_init(|| Arc::new(Options::new())));
+		// table ids must be unique per process: the block cache inside `Options` is keyed by them
+		static NEXT_ID: std::sync::atomic::AtomicU64 = std::sync::atomic::AtomicU64::new(1);
 		let mut iters: Vec<BoxedLSMIterator<'static>> = Vec::new();
-		for (i, src) in sources.iter().enumerate() {
+		for src in sources.iter() {
 			if src.is_empty() {
 				continue;
 			}
+			let id = NEXT_ID.fetch_add(1, std::sync::atomic::Ordering::Relaxed);
 			let mut buf = Vec::with_capacity(512);
 			{
-				let mut w = TableWriter::new(&mut buf, i as u64 + 1, Arc::clone(&opts), 0);
+				let mut w = TableWriter::new(&mut buf, id, Arc::clone(&opts), 0);
 				for (k, seq, kind, ts, v) in src {
 					let ik = InternalKey::new(k.clone(), *seq, InternalKeyKind::from(*kind), *ts);
 					w.add(ik, v).map_err(|e| e.to_string())?;
@@ -257,7 +260,7 @@ pub mod compaction {
 			}
 			let size = buf.len() as u64;
 			let file: Arc<dyn crate::vfs::File> = Arc::new(buf);
-			let table = Table::new(i as u64 + 1, Arc::clone(&opts), file, size).map_err(|e| e.to_string())?;
+			let table = Table::new(id, Arc::clone(&opts), file, size).map_err(|e| e.to_string())?;
 			// leaked on purpose: the iterator borrows the table for 'static (harness process is short-lived)
 			let table: &'static Table = Box::leak(Box::new(table));
 			iters.push(Box::new(table.iter(None).map_err(|e| e.to_string())?));
